@@ -27,7 +27,14 @@ type c14Case struct {
 func genKeySet(r *eng.Rng, n int) [][]byte {
 	seen := map[string]bool{}
 	var keys [][]byte
-	style := r.Intn(5)
+	style := r.Intn(6)
+	// style 5: groups of long keys (100-400 bytes) that differ only in their
+	// last few bytes (paths, URLs): any abbreviation of indexed keys would
+	// make neighbours indistinguishable
+	var groups [][]byte
+	for g := 0; g < 1+n/12; g++ {
+		groups = append(groups, append([]byte(fmt.Sprintf("g%02d/", g%7)), bytes.Repeat([]byte{byte('a' + r.Intn(26))}, 100+r.Intn(300))...))
+	}
 	for len(keys) < n {
 		var k []byte
 		i := len(keys)
@@ -45,6 +52,12 @@ func genKeySet(r *eng.Rng, n int) [][]byte {
 				k = append(k, []byte(fmt.Sprint(i))...)
 			} else {
 				k = []byte(fmt.Sprintf("z%d", r.Intn(n*4)))
+			}
+		case 5: // long shared prefixes
+			if r.Chance(1, 6) {
+				k = []byte(fmt.Sprintf("g%02d/%d", r.Intn(7), r.Intn(n*4)))
+			} else {
+				k = append(append([]byte{}, groups[r.Intn(len(groups))]...), []byte(fmt.Sprintf("/%03d", r.Intn(n*2)))...)
 			}
 		case 3: // shared prefixes
 			k = append([]byte("prefix/shared/"), []byte(fmt.Sprintf("%x", r.Intn(n*5)))...)
